@@ -380,6 +380,47 @@ func init() {
 			rtCase(cw, ms, true, string(g.bytes(1+g.pick(32))), g.time(), "mixed-checksum-stream")
 			rtCrcPattern = nil
 		}
+		// a Write that fails (an item whose value has the wrong Go type) and right after it a good one on the same cipher
+		// pair: the good frame is what it would be alone
+		for k := 0; k < 6; k++ {
+			enc, dec := cbcPair("k")
+			var mode cipher.BlockMode = enc
+			bad := []rscp.Message{{Tag: 0x00800001, DataType: rscp.Int32, Value: 5}, {Tag: 0x00800002, DataType: rscp.CString, Value: []int{1}}, {Tag: 0x00800003, DataType: rscp.DataType(0x42), Value: uint8(1)}}[k%3 : k%3+1]
+			func() {
+				defer func() { recover() }()
+				_, _ = rscp.Write(&mode, bad, k%2 == 0)
+			}()
+			good := g.tree()
+			if len(good) == 0 {
+				continue
+			}
+			// the failed call may or may not have used the cipher; what matters is the plaintext of the next frame
+			rec := &recorder{BlockMode: enc}
+			var rmode cipher.BlockMode = rec
+			ct, err := rscp.Write(&rmode, good, true)
+			prop := "pass"
+			if err != nil {
+				prop = "FAIL C01 a well-formed list is refused after a failed Write: " + err.Error()
+			} else if got := readOnce(identityMode{}, rec.plain[len(rec.plain)-1]); got != "ok "+msgsString(good) {
+				prop = "FAIL C01 after a failed Write the next frame does not decode to its messages: " + trunc(got, 120)
+			}
+			_, _ = ct, dec
+			cw.add("skip", "skip", "N rt good-write-after-failed-write", prop)
+		}
+		// containers whose child lists are windows of one array (same start, different lengths; overlapping)
+		{
+			items := make([]rscp.Message, 0, 8)
+			for k := 0; k < 6; k++ {
+				items = append(items, rscp.Message{Tag: rscp.Tag(0x00800010 + k), DataType: rscp.CString, Value: strings.Repeat("w", 3+5*k)})
+			}
+			for _, fr := range [][]rscp.Message{
+				{{Tag: 0x00800001, DataType: rscp.Container, Value: items[:1]}, {Tag: 0x00800002, DataType: rscp.Container, Value: items[:3]}},
+				{{Tag: 0x00800001, DataType: rscp.Container, Value: items[:3]}, {Tag: 0x00800002, DataType: rscp.Container, Value: items[:1]}},
+				{{Tag: 0x00800001, DataType: rscp.Container, Value: items[1:4]}, {Tag: 0x00800002, DataType: rscp.Container, Value: items[1:2]}, {Tag: 0x00800003, DataType: rscp.Container, Value: items[:6]}}} {
+				rtCase(cw, [][]rscp.Message{fr}, true, "k", g.time(), "containers-sharing-an-array")
+				rtCase(cw, [][]rscp.Message{fr}, false, "k", g.time(), "containers-sharing-an-array")
+			}
+		}
 		// trees nested 100 … 5000 levels deep
 		for _, d := range []int{100, 255, 256, 257, 300, 1000, 5000} {
 			m := rscp.Message{Tag: 0x00800001, DataType: rscp.UChar8, Value: uint8(7)}
@@ -831,6 +872,33 @@ func init() {
 						anyCase(cw, pl, "N known-tag-with-other-type")
 					}
 				}
+			}
+		}
+		// nothing but zero padding after the frame, however much: the largest frame plus one and plus five zero blocks, a
+		// small frame plus 2048 and 2100 zero blocks — whole and in pieces
+		{
+			big := plainFrame([]rscp.Message{{Tag: rscp.WB_EXTERN_DATA, DataType: rscp.ByteArray, Value: g.bytes(65528)}}, true, g.time())
+			small := plainFrame([]rscp.Message{{Tag: rscp.BAT_INDEX, DataType: rscp.UInt16, Value: uint16(7)}}, true, g.time())
+			for _, c := range []struct {
+				base []byte
+				zero int
+			}{{big, 1}, {big, 5}, {small, 2048}, {small, 2100}, {small, 1}} {
+				p := append(append([]byte{}, c.base...), make([]byte, 32*c.zero)...)
+				anyCase(cw, p, fmt.Sprintf("N zero-blocks-after-frame blocks=%d zero=%d", len(c.base)/32, c.zero))
+				// … delivered so that the last piece carries the frame's final block and the zero blocks
+				cut := len(c.base) - 32
+				if cut > 0 {
+					res := readChunks(identityMode{}, [][]byte{p[:cut], p[cut:]})
+					cw.add("decs "+hexOf(p[:cut])+" "+hexOf(p[cut:]), strings.Join(res, " | "), fmt.Sprintf("N zero-blocks-after-frame chunked zero=%d", c.zero), "")
+				}
+			}
+		}
+		// time stamps whose seconds are within a few seconds of the largest instant time.Time arithmetic can hold, with
+		// nanoseconds outside [0, 10⁹)
+		for _, sec := range []uint64{9223371974719179005, 9223371974719179006, 9223371974719179007, 9223371974719179008, 9223371974719179009, 0x8000000000000001, 0x7ffffffffffffffe} {
+			for _, ns := range []uint32{1500000000, 0x7fffffff, 0xffffffff, 0x80000000, 2000000000} {
+				it := itemBytes(0x00800001, 0x0f, append(binary.LittleEndian.AppendUint64(nil, sec), binary.LittleEndian.AppendUint32(nil, ns)...))
+				anyCase(cw, padBlocks(frameBytes(it, true, 1, 2)), "N timestamp-near-saturation")
 			}
 		}
 		// unknown tags in every one of the 256 namespaces (top byte), request and response side
